@@ -8,10 +8,33 @@
 (* (a restored / wrapped filter shows the bits and configuration of its    *)
 (* image) are printed under both names.                                    *)
 (***************************************************************************)
-EXTENDS Bloom, TraceCommon
+EXTENDS Bloom, TraceCommon, Integers
+CONSTANT CheckDesign   \* TRUE only in the tier-B configuration (TraceBloomB.cfg): also run the design model BloomDesign and compare
 VARIABLES pristine,   \* regions holding an untouched image written by serialize()
-          img         \* its token
-tvars == <<flt, mem, out, l, pristine, img>>
+          img,        \* its token
+          book, stored   \* tier B: BloomDesign's bookkeeping (cached count / dirty flag per object, count word per region)
+tvars == <<flt, mem, out, l, pristine, img, book, stored>>
+
+(***************************************************************************)
+(* Tier B (drift detection, DESIGN 2).  With CheckDesign the design model  *)
+(* of the code takes the same step (D!Action: it must agree with the       *)
+(* contract step on flt', mem', out' - i.e. predict the logged answers -   *)
+(* and it computes book', stored'), and the count word the harness read    *)
+(* at byte 24 of the region after the call ("st", -1 = DIRTY marker) must  *)
+(* equal the model's stored count.  Replayed TLC behaviours carry the      *)
+(* model's expected outcome / answer / count / stored word (xo, xa, xn,    *)
+(* xst; GenBloom.tla), compared under "B:gen-..." names.  A rejection here *)
+(* while tier A accepts is MODEL-DRIFT, never a violation.                 *)
+(***************************************************************************)
+D == INSTANCE BloomDesign WITH MaxCalls <- 0, WriteDirtyThrough <- TRUE, QauKeepsDirty <- TRUE, RoCheckSetOps <- TRUE,
+                               RemarkWhenDirty <- TRUE
+DStep(A) == IF CheckDesign THEN A ELSE UNCHANGED <<book, stored>>
+StoredOK(e, m) == (CheckDesign /\ Has(e, "st") /\ m # Own) => Chk("B:stored-count", m \in DOMAIN stored' /\ e.st = stored'[m])
+GenOK == LET e == Log[l] IN (CheckDesign /\ Has(e, "xo")) =>
+           /\ Chk("B:gen-outcome", Has(e, "out") => e.out = e.xo)
+           /\ Chk("B:gen-answer", (e.e = "QueryUpdate" /\ e.out = "ok") => e.ans = e.xa)
+           /\ Chk("B:gen-count", (e.e = "BitsUsed" /\ e.xn >= 0) => e.n = e.xn)
+           /\ Chk("B:gen-stored", (Has(e, "st") /\ e.xst >= -1) => e.st = e.xst)
 
 Chk2(n1, n2, c) == IF c THEN TRUE ELSE PrintT(<<"REJECT", n1, l>>) /\ PrintT(<<"REJECT", n2, l>>) /\ FALSE
 \* a clause of C15 alone, or (shared) of C09 and C15
@@ -34,11 +57,11 @@ ItemOK(e) == Chk("harness:index-list", Len(e.idx) = Cfg(e.f).hashes /\ ValidItem
 \* a successful write through a view ends the pristine state of its region
 Touched(f, o) == pristine' = IF o = "ok" /\ flt[f].at # Own THEN pristine \ {flt[f].at} ELSE pristine
 
-TBegin == IsEvent("Begin") /\ flt' = <<>> /\ mem' = <<>> /\ out' = Ok /\ pristine' = {} /\ img' = <<>>
+TBegin == IsEvent("Begin") /\ flt' = <<>> /\ mem' = <<>> /\ out' = Ok /\ pristine' = {} /\ img' = <<>> /\ book' = <<>> /\ stored' = <<>>
 TNew == IsEvent("New") /\ LET e == Log[l]  c == CfgOf(e.r) IN
   /\ Chk("C15:capacity", e.r.cap >= e.req)
   /\ Chk("C15:requested-config", e.r.seedH = e.reqSeedH /\ (e.how = "size" => e.r.hashes = e.reqHashes))
-  /\ New(e.f, c)
+  /\ New(e.f, c) /\ DStep(D!New(e.f, c))
   /\ ProjOK(e.r, c, {}, FALSE)
   /\ Chk("C15:read-only-flag", ~e.r.ro /\ ~e.r.wrapped)
   /\ UNCHANGED <<pristine, img>>
@@ -46,7 +69,7 @@ TInitMem == IsEvent("InitMem") /\ LET e == Log[l]  c == CfgOf(e.r) IN
   /\ Chk("C15:capacity", e.r.cap >= e.req)
   /\ Chk("C15:requested-config", e.r.seedH = e.reqSeedH /\ (e.how = "size" => e.r.hashes = e.reqHashes))
   /\ Chk("C09:static-size", e.need = 32 + e.r.cap \div 8)
-  /\ InitMem(e.f, e.m, c)
+  /\ InitMem(e.f, e.m, c) /\ DStep(D!InitMem(e.f, e.m, c)) /\ StoredOK(e, e.m)
   /\ ProjOK(e.r, c, {}, FALSE)
   /\ Chk("C15:read-only-flag", ~e.r.ro /\ e.r.wrapped)
   /\ Chk("C15:memory-bits", e.membits = <<>>)
@@ -57,70 +80,81 @@ TUpdate == IsEvent("Update") /\ LET e == Log[l] IN
   /\ Chk("harness:live-view", e.f \in Live /\ Has(e, "stale") = ~flt[e.f].fresh)
   /\ ItemOK(e)
   /\ Chk("C15:read-only-refused", (e.out = "throw") = Refused(e.f))
-  /\ Update(e.f, X(e), e.out)
+  /\ Update(e.f, X(e), e.out) /\ DStep(D!Update(e.f, X(e))) /\ StoredOK(e, flt[e.f].at)
   /\ (flt[e.f].fresh => PostEmpty(e)) /\ Touched(e.f, e.out) /\ UNCHANGED img
 TQueryUpdate == IsEvent("QueryUpdate") /\ LET e == Log[l] IN
   /\ Operand(e.f) /\ ItemOK(e)
   /\ Chk("C15:read-only-refused", (e.out = "throw") = Refused(e.f))
   /\ Chk("C15:no-false-negative", e.out = "ok" /\ X(e) \in Ins(e.f) => e.ans)
   /\ Chk("C15:query_and_update-returns-prior-membership", e.out = "ok" => e.ans = QueryAns(e.f, X(e)))
-  /\ QueryUpdate(e.f, X(e), e.out, e.ans)
+  /\ QueryUpdate(e.f, X(e), e.out, e.ans) /\ DStep(D!QueryUpdate(e.f, X(e))) /\ StoredOK(e, flt[e.f].at)
   /\ PostEmpty(e) /\ Touched(e.f, e.out) /\ UNCHANGED img
 TQuery == IsEvent("Query") /\ LET e == Log[l] IN
   /\ Operand(e.f) /\ ItemOK(e)
   /\ Chk("C15:query-refused", e.out = "ok")
   /\ Chk("C15:no-false-negative", X(e) \in Ins(e.f) => e.ans)
   /\ Chk("C15:query", e.ans = QueryAns(e.f, X(e)))
-  /\ Query(e.f, X(e), e.ans)
+  /\ Query(e.f, X(e), e.ans) /\ DStep(D!Query(e.f, X(e))) /\ StoredOK(e, flt[e.f].at)
+  /\ PostEmpty(e) /\ UNCHANGED <<pristine, img>>
+\* several query() calls through one fresh view in one event (replay epilogue): each answer is checked like a Query; the
+\* contract step taken is the last of them (query does not change the state)
+TSweep == IsEvent("Sweep") /\ LET e == Log[l]  n == Len(e.idx) IN
+  /\ Operand(e.f)
+  /\ \A k \in 1..n : LET x == ToSet(e.idx[k]) IN
+       /\ Chk("harness:index-list", Len(e.idx[k]) = Cfg(e.f).hashes /\ ValidItem(Cfg(e.f), x))
+       /\ Chk("C15:no-false-negative", x \in Ins(e.f) => e.ans[k])
+       /\ Chk("C15:query", e.ans[k] = QueryAns(e.f, x))
+       /\ (CheckDesign => Chk("B:design-query", e.ans[k] = (~D!EmptyD(e.f) /\ x \subseteq Bits(e.f))))
+  /\ Query(e.f, ToSet(e.idx[n]), e.ans[n]) /\ DStep(D!Query(e.f, ToSet(e.idx[n]))) /\ StoredOK(e, flt[e.f].at)
   /\ PostEmpty(e) /\ UNCHANGED <<pristine, img>>
 TNullItem == IsEvent("NullItem") /\ LET e == Log[l] IN
   /\ Operand(e.f)
   /\ Chk("C15:empty-item-ignored", e.out = "ok" /\ ~e.ans)
-  /\ EmptyItem(e.f, e.ans)
+  /\ EmptyItem(e.f, e.ans) /\ DStep(D!EmptyItem(e.f))
   /\ PostEmpty(e) /\ UNCHANGED <<pristine, img>>
 TBitsUsed == IsEvent("BitsUsed") /\ LET e == Log[l] IN
   /\ Operand(e.f)
   /\ Chk("C15:bits-used", e.n = BitsUsedAns(e.f))
-  /\ BitsUsed(e.f, e.n)
+  /\ BitsUsed(e.f, e.n) /\ DStep(D!BitsUsed(e.f)) /\ StoredOK(e, flt[e.f].at)
   /\ PostEmpty(e) /\ UNCHANGED <<pristine, img>>
 TObs == IsEvent("Obs") /\ LET e == Log[l] IN
   /\ Operand(e.f)
   /\ ProjOK(e.r, Cfg(e.f), Bits(e.f), FALSE)
   /\ Chk("C15:read-only-flag", e.r.ro = flt[e.f].ro /\ (flt[e.f].at # Own => e.r.wrapped))
   /\ Chk("C15:memory-bits", Has(e, "membits") => ToSet(e.membits) = Bits(e.f))
-  /\ UNCHANGED <<flt, mem, out, pristine, img>>
+  /\ UNCHANGED <<flt, mem, out, pristine, img, book, stored>>
 SetOpOK(e) == /\ Operand(e.f) /\ Operand(e.g)
               /\ Chk("C15:is_compatible", e.compatible = Compatible(e.f, e.g))
               /\ Chk("C15:incompatible-or-read-only-refused", (e.out = "throw") = (~Compatible(e.f, e.g) \/ Refused(e.f)))
 TUnion == IsEvent("Union") /\ LET e == Log[l] IN
-  /\ SetOpOK(e) /\ Union(e.f, e.g, e.out)
+  /\ SetOpOK(e) /\ Union(e.f, e.g, e.out) /\ DStep(D!Union(e.f, e.g)) /\ StoredOK(e, flt[e.f].at)
   /\ PostEmpty(e) /\ Touched(e.f, e.out) /\ UNCHANGED img
 TIntersect == IsEvent("Intersect") /\ LET e == Log[l] IN
-  /\ SetOpOK(e) /\ Intersect(e.f, e.g, e.out)
+  /\ SetOpOK(e) /\ Intersect(e.f, e.g, e.out) /\ DStep(D!Intersect(e.f, e.g)) /\ StoredOK(e, flt[e.f].at)
   /\ PostEmpty(e) /\ Touched(e.f, e.out) /\ UNCHANGED img
 TInvert == IsEvent("Invert") /\ LET e == Log[l] IN
   /\ Operand(e.f)
   /\ Chk("C15:read-only-refused", (e.out = "throw") = Refused(e.f))
-  /\ Invert(e.f, e.out)
+  /\ Invert(e.f, e.out) /\ DStep(D!Invert(e.f)) /\ StoredOK(e, flt[e.f].at)
   /\ PostEmpty(e) /\ Touched(e.f, e.out) /\ UNCHANGED img
 TReset == IsEvent("Reset") /\ LET e == Log[l] IN
   /\ Operand(e.f)
   /\ Chk("C15:read-only-refused", (e.out = "throw") = Refused(e.f))
-  /\ Reset(e.f, e.out)
+  /\ Reset(e.f, e.out) /\ DStep(D!Reset(e.f)) /\ StoredOK(e, flt[e.f].at)
   /\ PostEmpty(e) /\ Touched(e.f, e.out) /\ UNCHANGED img
 TCopy == IsEvent("Copy") /\ LET e == Log[l] IN
   /\ Operand(e.f)
   /\ ProjOK(e.r, Cfg(e.f), Bits(e.f), FALSE)
   /\ Chk("C15:read-only-flag", e.r.ro = flt[e.f].ro /\ (flt[e.f].at # Own => e.r.wrapped))
-  /\ Copy(e.f, e.g)
+  /\ Copy(e.f, e.g) /\ DStep(D!Copy(e.f, e.g)) /\ StoredOK(e, flt[e.f].at)
   /\ UNCHANGED <<pristine, img>>
 TMove == IsEvent("Move") /\ LET e == Log[l] IN
   /\ Operand(e.f)
   /\ ProjOK(e.r, Cfg(e.f), Bits(e.f), FALSE)
   /\ Chk("C15:read-only-flag", e.r.ro = flt[e.f].ro /\ (flt[e.f].at # Own => e.r.wrapped))
-  /\ Move(e.f, e.g)
+  /\ Move(e.f, e.g) /\ DStep(D!Move(e.f, e.g))
   /\ UNCHANGED <<pristine, img>>
-TDrop == IsEvent("Drop") /\ LET e == Log[l] IN Drop(e.f) /\ UNCHANGED <<pristine, img>>
+TDrop == IsEvent("Drop") /\ LET e == Log[l] IN Drop(e.f) /\ DStep(D!Drop(e.f)) /\ UNCHANGED <<pristine, img>>
 TSer == IsEvent("Ser") /\ LET e == Log[l] IN
   /\ Operand(e.f)
   /\ Chk("C09:bytes=stream", e.img = e.simg)
@@ -131,7 +165,7 @@ TSer == IsEvent("Ser") /\ LET e == Log[l] IN
   /\ Chk2("C09:image-bits", "C15:image-bits", ToSet(e.bits) = Bits(e.f))
   /\ Chk("C09:empty-image-form", e.imgEmpty = (Bits(e.f) = {}))
   /\ Chk("C15:is_empty", e.empty = (Bits(e.f) = {}))
-  /\ Ser(e.f, e.m, e.imgEmpty)
+  /\ Ser(e.f, e.m, e.imgEmpty) /\ DStep(D!Ser(e.f, e.m)) /\ StoredOK(e, e.m)
   /\ pristine' = pristine \cup {e.m} /\ img' = (e.m :> e.img) @@ img
 TDeser == IsEvent("Deser") /\ LET e == Log[l] IN
   /\ Chk("harness:region", e.m \in Regions /\ (e.m \in pristine => e.img = img[e.m]))
@@ -139,7 +173,7 @@ TDeser == IsEvent("Deser") /\ LET e == Log[l] IN
   /\ Chk("C09:consumed", e.consumed = e.size)
   /\ Chk("C09:reserialize", e.m \in pristine => e.reimg = img[e.m])
   /\ Chk("C15:read-only-flag", ~e.r.ro /\ ~e.r.wrapped)
-  /\ Deser(e.m, e.f)
+  /\ Deser(e.m, e.f) /\ DStep(D!Deser(e.m, e.f)) /\ StoredOK(e, e.m)
   /\ UNCHANGED <<pristine, img>>
 TWrap == IsEvent("Wrap") /\ LET e == Log[l] IN
   /\ Chk("harness:region", e.m \in Regions)
@@ -147,7 +181,7 @@ TWrap == IsEvent("Wrap") /\ LET e == Log[l] IN
   /\ ProjOK(e.r, mem[e.m].cfg, mem[e.m].bits, TRUE)
   /\ Chk("C15:memory-bits", ToSet(e.membits) = mem[e.m].bits)
   /\ Chk("C15:read-only-flag", (~mem[e.m].empty => e.r.wrapped) /\ (e.r.wrapped => e.r.ro))
-  /\ Wrap(e.m, e.f, e.r.ro)
+  /\ Wrap(e.m, e.f, e.r.ro) /\ DStep(D!Wrap(e.m, e.f)) /\ StoredOK(e, e.m)
   /\ UNCHANGED <<pristine, img>>
 TWWrap == IsEvent("WWrap") /\ LET e == Log[l] IN
   /\ Chk("harness:region", e.m \in Regions)
@@ -155,16 +189,16 @@ TWWrap == IsEvent("WWrap") /\ LET e == Log[l] IN
   /\ (e.out = "ok" => /\ ProjOK(e.r, mem[e.m].cfg, mem[e.m].bits, TRUE)
                       /\ Chk("C15:memory-bits", ToSet(e.membits) = mem[e.m].bits)
                       /\ Chk("C15:read-only-flag", e.r.wrapped /\ ~e.r.ro))
-  /\ WritableWrap(e.m, e.f, e.out)
+  /\ WritableWrap(e.m, e.f, e.out) /\ DStep(D!WritableWrap(e.m, e.f)) /\ StoredOK(e, e.m)
   /\ UNCHANGED <<pristine, img>>
 \* statistical verdict on a filter built by create_by_accuracy / initialize_by_accuracy and filled to its design load
 TFpp == IsEvent("Fpp") /\ LET e == Log[l] IN
   /\ Chk("C15:no-false-negative", e.FN = 0)
   /\ Chk("C15:false-positive-rate", FppOK(e.F, e.M, e.pPm))
-  /\ UNCHANGED <<flt, mem, out, pristine, img>>
+  /\ UNCHANGED <<flt, mem, out, pristine, img, book, stored>>
 
-TInit == flt = <<>> /\ mem = <<>> /\ out = Ok /\ l = 1 /\ pristine = {} /\ img = <<>>
-TNext == TBegin \/ TNew \/ TInitMem \/ TUpdate \/ TQueryUpdate \/ TQuery \/ TNullItem \/ TBitsUsed \/ TObs
-         \/ TUnion \/ TIntersect \/ TInvert \/ TReset \/ TCopy \/ TMove \/ TDrop \/ TSer \/ TDeser \/ TWrap \/ TWWrap \/ TFpp
+TInit == flt = <<>> /\ mem = <<>> /\ out = Ok /\ l = 1 /\ pristine = {} /\ img = <<>> /\ book = <<>> /\ stored = <<>>
+TNext == l <= Len(Log) /\ GenOK /\ (TBegin \/ TNew \/ TInitMem \/ TUpdate \/ TQueryUpdate \/ TQuery \/ TSweep \/ TNullItem \/ TBitsUsed \/ TObs
+         \/ TUnion \/ TIntersect \/ TInvert \/ TReset \/ TCopy \/ TMove \/ TDrop \/ TSer \/ TDeser \/ TWrap \/ TWWrap \/ TFpp)
 TSpec == TInit /\ [][TNext]_tvars
 ====
